@@ -1,4 +1,84 @@
+/-
+  Props/C13.lean — property C13: RollingCounter is an exact sliding-window counter for any timestamp order.
+  Property theorems only (helper lemmas live in CircuitProofs/Lemmas/RC.lean).
+-/
 import CircuitModel.Spec.C13
+import CircuitProofs.Lemmas.RC
 namespace CM.Props.C13
-theorem placeholder : (RC.new 1 1).n = 1 := rfl
+open CM CM.SpecC13
+
+/-- REFINEMENT (the main theorem).  For every positive bucket count and width and every finite sequence of
+    Inc / RollingSumAt / GetBuckets / Reset / TotalSum / JSON round-trip with arbitrary (non-monotonic, negative,
+    far-future) timestamps, the ring-buffer model answers exactly what the history-based specification dictates. -/
+theorem refines (n : Nat) (w : Int) (hn : 0 < n) (hw : 0 < w) (ops : List RCOp) :
+    (RC.new n w).run ops = SpecC13.run n w ops := by
+  have _ := hw
+  exact Inv.run hn ops (RC.new n w) [] (Inv.new n w hn)
+
+/-- no timestamp makes any operation panic -/
+theorem never_panics (n : Nat) (w : Int) (hn : 0 < n) (hw : 0 < w) (ops : List RCOp) :
+    RCOut.panic ∉ (RC.new n w).run ops := by
+  rw [refines n w hn hw ops]
+  exact panic_not_mem_runFrom n w ops []
+
+/-- presenting any operation (in particular one with an older time) never moves the window back -/
+theorem window_never_moves_back (w : Int) (h : List RCOp) (op : RCOp) : hi w h ≤ hi w (op :: h) := by
+  exact hi_le_cons w h op
+
+/-- an Inc stamped before the start, or older than the window, changes neither the rolling sum nor any bucket
+    (it is counted in TotalSum only) -/
+theorem stale_only_in_total (n : Nat) (w : Int) (h : List RCOp) (d : Int)
+    (hstale : d < 0 ∨ absIdx w d + n ≤ hi w h) :
+    sum n w (.inc d :: h) = sum n w h ∧ bucketsAt n w (.inc d :: h) = bucketsAt n w h ∧
+    incs (.inc d :: h) = incs h + 1 := by
+  refine ⟨?_, ?_, rfl⟩
+  · rw [sum_eq_win, sum_eq_win, counted_inc, hi_cons_time w h (.inc d) d rfl]
+    by_cases hd : d < 0
+    · rw [if_pos hd, if_pos hd]
+    · rw [if_neg hd, if_neg hd]
+      have hs : absIdx w d + n ≤ hi w h := by omega
+      have hm : max (absIdx w d) (hi w h) = hi w h := by omega
+      rw [hm, win_cons, if_neg (by omega)]; omega
+  · rw [bucketsAt_eq, bucketsAt_eq, counted_inc, hi_cons_time w h (.inc d) d rfl]
+    by_cases hd : d < 0
+    · rw [if_pos hd, if_pos hd]
+    · rw [if_neg hd, if_neg hd]
+      have hs : absIdx w d + n ≤ hi w h := by omega
+      have hm : max (absIdx w d) (hi w h) = hi w h := by omega
+      rw [hm]
+      apply List.map_congr_left
+      intro i hmem
+      have hlt : i < n := List.mem_range.mp hmem
+      simp only [cnt_cons]
+      split
+      · rw [if_neg (by omega)]; omega
+      · rfl
+
+/-- Reset empties the window and leaves TotalSum alone -/
+theorem reset_empties_window_keeps_total (n : Nat) (w : Int) (h : List RCOp) (d : Int) :
+    sum n w (.reset d :: h) = 0 ∧ bucketsAt n w (.reset d :: h) = List.replicate n 0 ∧
+    incs (.reset d :: h) = incs h := by
+  refine ⟨?_, ?_, rfl⟩
+  · rw [sum_eq_win, counted_reset, win_nil]
+  · rw [bucketsAt_eq, counted_reset]
+    simp only [cnt_nil, ite_self]
+    rw [List.map_const', List.length_range]
+
+/-- the rolling sum is the sum of the buckets GetBuckets reports (spec level; by `refines` also for the model) -/
+theorem sum_eq_sum_buckets (n : Nat) (w : Int) (h : List RCOp) :
+    sum n w h = (bucketsAt n w h).sum := by
+  rw [sum_eq_win, bucketsAt_eq]
+  exact win_eq_sum_range _ _ (counted_le_hi w h) n
+
+/-- the model's bucket list always has NumBuckets entries, whatever happened (so no index is ever out of range) -/
+theorem buckets_length (n : Nat) (w : Int) (ops : List RCOp) :
+    ((RC.new n w).exec ops).buckets.length = n := by
+  rw [exec_length]
+  simp [RC.new]
+
+/-- non-vacuity: a concrete history with roll-over, a stale event, a pre-start event and a reset -/
+example : (RC.new 4 1000000).run
+      [.inc 10000000, .inc 2000000, .inc (-5), .sum 10000000, .bk 11000000, .reset 11000000, .inc 11000001, .sum 0, .total]
+    = [.ok, .ok, .ok, .int 1, .ints [0, 1, 0, 0], .ok, .ok, .int 1, .int 4] := by decide
+
 end CM.Props.C13
